@@ -279,7 +279,20 @@ def check(ctx):
     ctx.check(ok, "C01.R9", f"{th.qualname}:bool", th.node.body[0], "to_hashable returns booleans as is: [1, true] counts as duplicate items for uniqueItems although the JSON values are distinct", th, th.node, detail="booleans tagged before the fall-through")
 
 
+    # ---------------- R10: type variables of generic bases
+    ctx.rule("C01.R10", "generic inheritance: the arguments of C[...] are bound to C's declared parameters (`__parameters__`, the order given by Generic[...] when present), then substituted into the bases - not to the variables in their order of first appearance in the bases", floor=1)
+    gm = model.func("apischema.typing._generic_mro")
+    zips = [c for c in ast.walk(gm.node) if isinstance(c, ast.Call) and dotted(c.func) == "zip" and len(c.args) == 2 and "get_args(tp)" in norm(c.args[1])]
+    ctx.require(len(zips) == 1, "_generic_mro: zip(parameters, get_args(tp)) not found")
+    pv = zips[0].args[0]
+    defs = [n.value for n in walk_no_nested(gm.node) if isinstance(n, ast.Assign) and isinstance(pv, ast.Name) and norm(n.targets[0]) == pv.id] if isinstance(pv, ast.Name) else [pv]
+    declared = any("__parameters__" in norm(d) and "origin" in norm(d) for d in defs)
+    ctx.check(declared, "C01.R10", f"{gm.qualname}:parameters", None,
+              f"the arguments are zipped with `{norm(defs[0]) if defs else norm(pv)}` only: for `class E(A[U, T], Generic[T, U])`, E[int, str] binds U=int, T=str (order of appearance in the bases) instead of T=int, U=str - the fields inherited from A get each other's types, valid data is rejected and swapped data accepted",
+              gm, zips[0], detail="origin.__parameters__")
+
 def mutants(mb):
+    mb.add_text("generic-params-by-appearance", "apischema/typing.py", "        parameters = getattr(origin, \"__parameters__\", None)\n        if parameters is None:\n            parameters = _collect_type_parameters(origin.__orig_bases__)\n", "        parameters = _collect_type_parameters(origin.__orig_bases__)\n", "C01.R10", "parameters")
     M = "apischema/deserialization/methods.py"
     mb.add_text("float-accepts-bool", M, "        elif isinstance(data, int) and not isinstance(data, bool):", "        elif isinstance(data, int):", "C01.R2", "FloatMethod")
     mb.add_text("int-accepts-bool", M, "        if not isinstance(data, int) or isinstance(data, bool):\n            raise bad_type(data, int)", "        if not isinstance(data, int):\n            raise bad_type(data, int)", "C01.R2", "IntMethod")
